@@ -31,6 +31,7 @@ rec['confirmed'] = bool(ok_demo and rec.get('suite_ok') and rec.get('applies'))
 det = {}
 assert run('git -C /repo status --short').stdout.strip() == '', '/repo not clean'
 run('git -C /repo apply %s/patch.diff' % src)
+saved = {pid: open('/verif/evidence/%s.json' % pid).read() for pid in props if os.path.exists('/verif/evidence/%s.json' % pid)}
 try:
     for pid in props:
         p = run('cd /verif && ./check %s --tier quick' % pid, timeout=3000)
@@ -39,6 +40,8 @@ try:
                     'with_failing_input': sum(1 for l in lines if 'no-failing-input-found' not in l)}
 finally:
     run('git -C /repo checkout -- .')
+    for pid, txt in saved.items():   # evidence must describe the unchanged tree
+        open('/verif/evidence/%s.json' % pid, 'w').write(txt)
 rec['detected_by'] = det
 dst = os.path.join('/verif/seeded', sid)
 os.makedirs(dst, exist_ok=True)
